@@ -219,7 +219,8 @@ def run_doc_case(case, env, focus, stats, syntax_compilers=()):
     fps = []
     workdir = env.fresh_dir("qt")
     try:
-        tr = build.translate(env, doc["qml"], doc["type_name"], workdir, prev_qml=case.get("prev_qml"), wfault=case.get("wfault"))
+        tr = build.translate(env, doc["qml"], doc["type_name"], workdir, prev_qml=case.get("prev_qml"), wfault=case.get("wfault"),
+                             hash_seed=1 + int(hash_text(doc["qml"])[:7], 16))   # every document under another order of qmluic's hash maps
         stats["runs"] += 1
         if tr.get("faulted"):
             stats["runs"] += 2
